@@ -133,7 +133,7 @@ def dense_ops(rng, n):
             oids = list(range(4)) if rng.random() < 0.95 else [1, 2, 3]
             ops.append({'op': 'og.tree', 'tree': t, 'oid_identity': 0, 'd': d, 'opmap': oglib.rand_opmap(rng, oids, d, oid_identity=0)})
         else:
-            raw, L, charged = oglib.gen_layered_graph(rng)
+            raw, L, charged = oglib.gen_layered_graph(rng, term_twin=False)      # as_matrix asserts on unconnected nodes
             if L >= 4:
                 d = min(d, 2)
             oids = sorted({p[0] for e in raw['edges'] for p in e[2]})
